@@ -1,5 +1,5 @@
 """C04 -- data vector and curvature matrix equal the normal equations in both formalisms (mapping / w-tilde)."""
-import random
+import random, hashlib
 import numpy as np
 from fractions import Fraction
 from harness.common import cz, cq, cnat, cbool, clist, ctup, import_aa, frac
@@ -9,35 +9,59 @@ GEN = []
 PROPS = "Props/C04.v"
 COQ_CHECK = ("Model.C04", "check")
 COQ_FALLBACK = None
-COQ_IMPORTS = ""
+COQ_IMPORTS = "From PAV Require Import Base.NumOps."
 SHARD = 12
-RULE = ("imaging datasets on random masks (densities 0.15-0.9, single pixel, ring with hole, full block, full line along the kernel's long "
-        "axis, corners + centre, a pixel pair at an extreme offset of the kernel overlap with the later pixel to the left or right) of <= 20 unmasked pixels in frames up to 10x10 whose kernel footprint stays inside the frame; PSFs of "
-        "shape {1x1,1x3,3x1,3x3,3x5,5x3,1x5,5x1,5x5,1x7,7x1} with signed / "
-        "non-negative integer entries (use_normalized_psf=False so every double operation is exact); integer data of either sign; noise in "
-        "{1/2,1,2,4} per pixel; 1..3 linear objects in random order mixing real MapperRectangular / MapperDelaunay objects (sub_size 1, 2, "
-        "per-pixel {1,2,4}; affine + bilinear source-plane distortions; with / without regularization) and function lists (random sparse "
-        "matrices, optional operated override); both use_w_tilde settings on the same inputs through aa.Inversion (class chosen, "
-        "operated_mapping_matrix, data_vector, curvature_matrix, mapped_reconstructed_data for an injected integer reconstruction), the two "
-        "formalisms compared with each other (D, F, mapped data, and the solved reconstruction where F+H is well conditioned); read-order "
-        "independence: a second instance on which curvature_reg_matrix / reconstruction / mapped_reconstructed_data are read BEFORE "
-        "operated_mapping_matrix / data_vector / curvature_matrix (late values judged by the same model + spec unless bit-identical); plus every "
-        "anchored util function called directly on synthetic inputs (random sparse encodings with filler entries, random upper-triangular "
-        "preloads, asymmetric matrices for the mirror, duplicate indices for the diagonal term). Non-trivial = at least 2 unmasked pixels "
-        "and a kernel with more than one non-zero entry (inversion cases) / any util case; distinct = distinct JSON input.")
+RULE = ("(1) inversions: imaging datasets on random masks (densities 0.15-0.9, single pixel, ring with hole, full block, full line along the "
+        "kernel's long axis, corners + centre, a pixel pair at an extreme offset of the kernel overlap with the later pixel to the left or "
+        "right, checkerboard, diagonal + anti-diagonal) of <= 20 unmasked pixels in frames up to 10x10 whose kernel footprint stays inside "
+        "the frame, with unit / anisotropic pixel scales (2 x 1/2, 1/2 x 2, 1/4) and shifted origins at the CLASS layer; PSFs of shape "
+        "{1x1,1x3,3x1,3x3,3x5,5x3,1x5,5x1,5x5,1x7,7x1}: signed, non-negative, sparse, point-symmetric, positive core with negative wings, "
+        "pure off-centre shifts (use_normalized_psf=False: every double operation exact); integer data of either sign; noise in "
+        "{1/2,1,2,4}; 1..3 linear objects in random order mixing real MapperRectangular / MapperDelaunay objects (sub_size 1, 2, per-pixel "
+        "{1,2,4}; affine + bilinear source-plane distortions; with / without regularization) and function lists (random sparse matrices, "
+        "optional operated override), function lists before and after a mapper, several unregularized objects; every third case carries "
+        "an EXTREME: data x 2^-30 / 2^30 / all zero, noise x 2^-20 / 2^20 / spread over 2^-8..2^8, psf x 2^-20 / 2^20, equal noise + "
+        "symmetric kernel + full block (exact ties), one basis column x 2^-20 / x 2^20 / zero / negative throughout; comparisons inside "
+        "Coq are exact, or (Delaunay weights, default 1e-3 diagonal term, power-of-two extremes) within 1e-9 RELATIVE TO A BOUND ON THE "
+        "TERMS OF EACH ENTRY (column scale x column scale x sum 1/sigma^2 ...), so a tiny column is judged at its own scale. Both "
+        "use_w_tilde settings on the same inputs through aa.Inversion; ONE instance per formalism whose cached properties are read in a "
+        "random order with repeats (operated_mapping_matrix, data_vector, curvature_matrix, curvature_reg_matrix, reconstruction; "
+        "curvature_matrix again after curvature_reg_matrix), every read judged by the cell model and by the specification (KSeq), then "
+        "mapped_reconstructed_data of the same instance for an injected integer reconstruction; 30% of the instances use the default "
+        "positive-only solver; the two formalisms compared with each other (D, F, mapped data, solved reconstruction where F+H is well "
+        "conditioned); the caller's arrays / settings fingerprinted around every inversion. (2) sessions: a history in one process on "
+        "SHARED objects -- one Imaging, one settings object per formalism, one list of linear objects -- with three of: other objects of "
+        "the same kinds and shapes then the first list again; DatasetInterface(data = data - model (derived by arithmetic), noise_map, "
+        "convolver, w_tilde = imaging.w_tilde); Preloads(w_tilde = the w_tilde of an Imaging with OTHER data, use_w_tilde=True), "
+        "Preloads(use_w_tilde=False), the same Preloads object again after an in-place edit of the data; in-place edit of the data; in-place "
+        "edit of a basis function; another dataset (other psf / noise / data, same first noise value) on the same mask with the same linear "
+        "objects, then the first dataset again; DatasetInterface with the noise map scaled by arithmetic and the stale w_tilde "
+        "(InversionException expected from the w-tilde class, normal equations of the scaled noise from the mapping class); a dataset "
+        "derived by a second apply_mask; a dataset derived by apply_over_sampling; every inversion judged (KInvW) on the values read from "
+        "the dataset actually passed in at that moment. (3) every anchored util function called directly on synthetic inputs (random sparse "
+        "encodings with filler entries, random upper-triangular preloads, asymmetric matrices for the mirror, duplicate indices for the "
+        "diagonal term). Non-trivial = at least 2 unmasked pixels and a kernel with more than one non-zero entry (inversion cases) / any "
+        "session or util case; distinct = distinct JSON input.")
 EXHAUSTIVE = {}
 TRUSTED = ["hand-written Gallina model coq/Model/C04.v (scatter loops, sequential symmetrisation / mirror / block assignments, running-index "
-           "walk of the preload, param ranges by running count) on top of the convolver model coq/Model/C03.v; tied to /repo by this "
-           "correspondence run (comparison evaluated inside Coq by vm_compute: exact for rectangular mappers / function lists with dyadic "
-           "diagonal term, relative tolerance 1e-9 where Delaunay interpolation weights or the default 1e-3 diagonal term make doubles inexact)",
-           "numpy: np.dot = sum of products, slice / block assignment, hstack, np.concatenate, .native zero-fills masked pixels (0/0 = NaN "
-           "exactly at masked pixels in w_tilde_data_imaging_from)",
+           "walk of the preload, param ranges by running count, the w_tilde object handed over separately with check_noise_map, the factory's "
+           "choice, heap cells for the cached curvature_matrix / curvature_reg_matrix arrays) on top of the convolver model coq/Model/C03.v; tied "
+           "to /repo by this correspondence run (comparison evaluated inside Coq by vm_compute: exact for rectangular mappers / function lists "
+           "with dyadic diagonal term; otherwise within 1e-9 of a rigorous bound on the sum of the absolute values of the terms of each entry -- "
+           "column scale x column scale x sum 1/sigma^2, + |eps| on a flagged diagonal entry, + |H| for curvature_reg_matrix (one extra rounding "
+           "2^-53 allowed there because the regularization matrix is not dyadic))",
+           "numpy: np.dot = sum of products, slice / block assignment, hstack, np.concatenate, np.add / += on arrays, .native zero-fills masked "
+           "pixels (0/0 = NaN exactly at masked pixels in w_tilde_data_imaging_from)",
            "a mapper enters as its mapping_matrix together with its unique-mapping encoding (that the encoding represents the matrix is "
-           "C06's theorem; here it is re-checked numerically on every generated mapper)",
-           "the reconstruction itself (np.linalg.solve / fnnls) is C05's; here it is an input of mapped_reconstructed_data"]
-ASSUMPTIONS = ["real arithmetic (no rounding): theorems over R; correspondence exact or within 1e-9 relative",
+           "C06's theorem; here it is re-checked numerically on every generated mapper); regularization_matrix enters the read sequences as an "
+           "input (C07 / C08)",
+           "the reconstruction itself (np.linalg.solve / fnnls) is C05's; here it is an input of mapped_reconstructed_data, and both formalisms "
+           "are proved to hand the same matrix and vector to it"]
+ASSUMPTIONS = ["real arithmetic (no rounding): theorems over R; correspondence exact or within 1e-9 relative to the scale of each entry",
                "kernel footprint of every unmasked pixel inside the frame (the property's quantifier); positive noise on unmasked pixels",
-               "preloads (Preloads object) are not exercised here (C15)"]
+               "a w_tilde object handed over separately comes from an Imaging with the same mask, psf and noise map (a stale object that passes "
+               "the first-value test of check_noise_map is the caller's error: no claim); linear objects pairwise distinct",
+               "of the Preloads object only w_tilde and use_w_tilde are exercised here (the other fields are C15's)"]
 
 PSF_SHAPES = [(1, 1), (1, 3), (3, 1), (3, 3), (3, 3), (3, 5), (5, 3), (1, 5), (5, 1), (5, 5), (1, 7), (7, 1)]
 NOISE = [Fraction(1, 2), Fraction(1), Fraction(2), Fraction(4)]
@@ -88,6 +112,18 @@ def rand_mask(rng, H, W, kh, kw, style, maxpix):
             y, x = rng.choice(cells); m[y][x] = False
         for (y, x) in cells:
             if rng.random() < 0.1: m[y][x] = False
+    elif style == "checker":
+        # every other admissible cell: no two unmasked pixels are neighbours, all overlaps go through masked pixels
+        par = rng.randrange(2)
+        for (y, x) in cells:
+            if (y + x) % 2 == par: m[y][x] = False
+        if all(all(r) for r in m):
+            y, x = rng.choice(cells); m[y][x] = False
+    elif style == "diag":
+        # a diagonal and an anti-diagonal run: the later pixel of a pair lies to the right of the earlier one on one, to the left on the other
+        for k in range(min(y1 - y0, x1 - x0)):
+            m[y0 + k][x0 + k] = False
+            if rng.random() < 0.7: m[y0 + k][x1 - 1 - k] = False
     elif style == "corners":
         for (y, x) in ((y0, x0), (y0, x1 - 1), (y1 - 1, x0), (y1 - 1, x1 - 1), ((y0 + y1 - 1) // 2, (x0 + x1 - 1) // 2)): m[y][x] = False
     else:
@@ -101,35 +137,62 @@ def rand_mask(rng, H, W, kh, kw, style, maxpix):
         y, x = un.pop(rng.randrange(len(un))); m[y][x] = True
     return m
 
-def rand_kernel(rng, kh, kw):
-    mode = rng.choice(["signed", "signed", "nonneg", "sparse"])
+def rand_kernel(rng, kh, kw, mode=None):
+    mode = mode or rng.choice(["signed", "signed", "nonneg", "sparse", "symmetric", "negwings", "shift"])
     while True:
         if mode == "nonneg": K = [[rng.randint(0, 3) for _ in range(kw)] for _ in range(kh)]
         elif mode == "sparse": K = [[rng.choice([0, 0, 1, -1, 2]) for _ in range(kw)] for _ in range(kh)]
+        elif mode == "symmetric":      # point-symmetric and mirror-symmetric: ties between the two triangles of the overlap matrix
+            q = [[rng.randint(-2, 3) for _ in range(kw // 2 + 1)] for _ in range(kh // 2 + 1)]
+            K = [[q[min(y, kh - 1 - y)][min(x, kw - 1 - x)] for x in range(kw)] for y in range(kh)]
+        elif mode == "shift":          # one or two off-centre entries: a pure shift, maximally asymmetric overlaps
+            K = [[0] * kw for _ in range(kh)]
+            for _ in range(rng.choice([1, 1, 2])): K[rng.randrange(kh)][rng.randrange(kw)] = rng.choice([1, 2, -1, 3])
+        elif mode == "negwings":       # positive core, negative wings: every cross term between neighbours can be negative
+            K = [[(rng.randint(2, 4) if (y, x) == (kh // 2, kw // 2) else -rng.randint(0, 2)) for x in range(kw)] for y in range(kh)]
         else: K = [[rng.randint(-3, 3) for _ in range(kw)] for _ in range(kh)]
         if any(v for r in K for v in r): return K
 
-def rand_dataset(rng, maxpix):
+GEOMS = [None, None, None, {"ps": ["2", "1/2"], "origin": ["3/4", "-5/4"]}, {"ps": ["1/4", "1/4"], "origin": ["0", "0"]},
+         {"ps": ["1/2", "2"], "origin": ["-1/2", "3"]}]
+MASK_STYLES = ["random", "random", "random", "single", "ring", "full", "line", "corners", "pair", "pair", "checker", "diag"]
+def rand_dataset(rng, maxpix, ext=None, geom=None):
+    """ext: None | 'data_tiny' | 'data_huge' | 'noise_tiny' | 'noise_huge' | 'noise_spread' | 'psf_tiny' | 'psf_huge' | 'zero_data' |
+    'flat' (equal noise, symmetric kernel, full block: exact ties).  Every factor is a power of two."""
     kh, kw = rng.choice(PSF_SHAPES)
     H = rng.randint(kh + 1, min(10, kh + 5)); W = rng.randint(kw + 1, min(10, kw + 5))
-    m = rand_mask(rng, H, W, kh, kw, rng.choice(["random", "random", "random", "single", "ring", "full", "line", "corners", "pair", "pair"]), maxpix)
-    K = rand_kernel(rng, kh, kw)
-    data = [[rng.randint(-9, 9) for _ in range(W)] for _ in range(H)]
-    noise = [[S(rng.choice(NOISE)) for _ in range(W)] for _ in range(H)]
-    return {"m": m, "K": K, "data": data, "noise": noise}
+    m = rand_mask(rng, H, W, kh, kw, "full" if ext == "flat" else rng.choice(MASK_STYLES), maxpix)
+    K = rand_kernel(rng, kh, kw, "symmetric" if ext == "flat" else None)
+    fd = {"data_tiny": Fraction(1, 2 ** 30), "data_huge": Fraction(2 ** 30), "zero_data": Fraction(0)}.get(ext, Fraction(1))
+    fs = {"noise_tiny": Fraction(1, 2 ** 20), "noise_huge": Fraction(2 ** 20)}.get(ext, Fraction(1))
+    fk = {"psf_tiny": Fraction(1, 2 ** 20), "psf_huge": Fraction(2 ** 20)}.get(ext, Fraction(1))
+    data = [[S(rng.randint(-9, 9) * fd) for _ in range(W)] for _ in range(H)]
+    noise = [[S(rng.choice(NOISE) * fs) for _ in range(W)] for _ in range(H)]
+    if ext == "noise_spread": noise = [[S(Fraction(2) ** rng.choice([-8, -1, 0, 3, 8])) for _ in range(W)] for _ in range(H)]
+    if ext == "flat": noise = [[S(Fraction(2)) for _ in range(W)] for _ in range(H)]
+    ds = {"m": m, "K": [[S(v * fk) for v in r] for r in K], "data": data, "noise": noise}
+    if geom: ds.update(geom)
+    return ds
 
 def rand_vals(rng, sparse):
     if sparse and rng.random() < 0.5: return Fraction(0)
     if rng.random() < 0.3: return Fraction(rng.randint(-12, 12), 4)
     return Fraction(rng.randint(-5, 5))
 
-def rand_obj(rng, n, kind=None):
+def rand_obj(rng, n, kind=None, colext=None):
     kind = kind or rng.choice(["rect", "rect", "delaunay", "func", "func"])
     if kind == "func":
         P = rng.randint(1, 3); sp = rng.random() < 0.5
         o = {"kind": "func", "P": P, "M": [[S(rand_vals(rng, sp)) for _ in range(P)] for _ in range(n)],
              "reg": rng.random() < 0.15, "ov": None}
         if rng.random() < 0.2: o["ov"] = [[S(rand_vals(rng, sp)) for _ in range(P)] for _ in range(n)]
+        if colext:
+            # one column of the basis (and of the override) scaled by 2^-20 / 2^20 / set to zero / made negative throughout
+            j = rng.randrange(P); f = {"tiny": Fraction(1, 2 ** 20), "huge": Fraction(2 ** 20), "zero": Fraction(0), "neg": None}[colext]
+            for key in ("M", "ov"):
+                if o[key] is not None:
+                    for r in o[key]:
+                        r[j] = S(-abs(Fraction(r[j])) - 1) if f is None else S(Fraction(r[j]) * f)
         return o
     sub = rng.choice([1, 1, 2, 2, "mixed"])
     dist = [S(Fraction(rng.randint(-8, 8), 4)) for _ in range(4)] + [S(Fraction(rng.randint(-4, 4), 8)) for _ in range(2)]
@@ -160,22 +223,86 @@ def synth_preload(rng, n):
         lens.append(len(js))
     return {"pre": pre, "idx": idx, "lens": lens}
 
+EXTS_DS = ["psf_tiny", "data_tiny", "noise_huge", "noise_tiny", "psf_huge", "data_huge", "noise_spread", "zero_data", "flat", "psf_tiny"]
+EXTS_COL = ["tiny", "huge", "zero", "neg"]
+SESS_STEPS = ["objs2", "iface", "preload", "edit_data", "edit_func", "ds2", "iface_noise0", "remask", "oversampling"]
+
+def n_unmasked(ds): return sum(1 for r in ds["m"] for b in r if not b)
+
+def twin_obj(rng, o, n):
+    """an object of the same kind and shapes as [o] with other values (a cache keyed by kind / shape / position confuses them)"""
+    t = rand_obj(rng, n, o["kind"])
+    if o["kind"] == "func":
+        P = o["P"]; sp = rng.random() < 0.5
+        t.update(P=P, M=[[S(rand_vals(rng, sp)) for _ in range(P)] for _ in range(n)], reg=o["reg"],
+                 ov=None if o["ov"] is None else [[S(rand_vals(rng, sp)) for _ in range(P)] for _ in range(n)])
+    else:
+        t.update(sub=o["sub"], reg=o["reg"])
+        if o["kind"] == "rect": t["shape"] = o["shape"]
+        else: t["npts"] = o["npts"]
+    return t
+
 def gen_inputs(tier, rng):
     thorough = tier == "thorough"
-    n_inv = 250 if thorough else 34
+    n_inv = 250 if thorough else 30
+    n_sess = 45 if thorough else 9
     n_util = 40 if thorough else 6
     maxpix = 20 if thorough else 14
     for i in range(n_inv):
-        ds = rand_dataset(rng, maxpix if i % 4 else 9)
+        # every third case carries one extreme: a dataset-level one (power-of-two factors, zero data, exact ties) or a column-level
+        # one (a basis column scaled by 2^-20 / 2^20 / zero / negative throughout); geometry: anisotropic pixel scales, shifted origin
+        ext = colext = None
+        if i % 3 == 1: ext = EXTS_DS[(i // 3) % len(EXTS_DS)]
+        if i % 3 == 2 and (i // 3) % 2 == 0: colext = EXTS_COL[(i // 6) % len(EXTS_COL)]
+        geom = rng.choice(GEOMS)
+        ds = rand_dataset(rng, maxpix if i % 4 else 9, ext, geom)
         if ds["m"] is None: continue
-        n = sum(1 for r in ds["m"] for b in r if not b)
+        n = n_unmasked(ds)
         nobj = rng.choice([1, 1, 2, 2, 3])
+        if not thorough and n > 9:
+            # quick tier: Delaunay weights are 53-bit rationals, the exact evaluation inside Coq of a case with many pixels AND a Delaunay
+            # mapper AND three objects costs ~20 s; such cases stay in the thorough tier, here the big masks get rectangular mappers only
+            heavy_ok = False
+        else: heavy_ok = True
         objs = [rand_obj(rng, n) for _ in range(nobj)]
         if i % 7 == 0: objs = [rand_obj(rng, n, "func") for _ in range(nobj)]          # factory: all function lists
         if i % 7 == 1: objs = [rand_obj(rng, n, rng.choice(["rect", "delaunay"])) for _ in range(max(2, nobj))]   # several mappers
         if i % 7 == 2: objs = [rand_obj(rng, n, "func"), rand_obj(rng, n, "rect"), rand_obj(rng, n, "func")][:max(2, nobj)]
+        if colext:      # a function list with the extreme column, before AND after a mapper (negative cross blocks on both sides)
+            objs = [rand_obj(rng, n, "func", colext), rand_obj(rng, n, rng.choice(["rect", "rect", "delaunay"])), rand_obj(rng, n, "func", colext)][:rng.choice([2, 3])]
+            if rng.random() < 0.5: objs.reverse()
+            for o in objs: o["reg"] = o["reg"] and rng.random() < 0.5      # several unregularized objects
+        if ext and all(o["kind"] == "func" for o in objs):
+            # an extreme dataset always meets a mapper (the w-tilde tables are only used then), at a random position
+            objs[rng.randrange(len(objs))] = rand_obj(rng, n, rng.choice(["rect", "rect", "delaunay"]))
+        if not heavy_ok:
+            objs = [(rand_obj(rng, n, "rect", None) if o["kind"] == "delaunay" else o) for o in objs]
         eps = rng.choice([None, "1/1024", "1/2", "1/1024"])
-        yield {"op": "inv", "ds": ds, "objs": objs, "eps": eps, "rseed": rng.randrange(10 ** 6)}
+        if ext in ("noise_huge", "psf_tiny"): eps = rng.choice([None, "1/1073741824"])
+        yield {"op": "inv", "ds": ds, "objs": objs, "eps": eps, "rseed": rng.randrange(10 ** 6), "ext": ext or colext, "k": i}
+    for i in range(n_sess):
+        # a history in ONE process on shared objects: see run_sess
+        while True:
+            ds = rand_dataset(rng, 8, None, rng.choice(GEOMS))
+            if ds["m"] is not None and n_unmasked(ds) >= 2: break
+        n = n_unmasked(ds); kh, kw = len(ds["K"]), len(ds["K"][0]); H, W = len(ds["m"]), len(ds["m"][0])
+        kinds = [["rect"], ["func", "rect"], ["rect", "func"], ["rect", "rect"], ["func", "rect", "func"]][i % 5]
+        objs = [rand_obj(rng, n, k) for k in kinds]
+        for o in objs:
+            if o["kind"] == "func" and rng.random() < 0.7: o["ov"] = None
+        objs2 = [twin_obj(rng, o, n) for o in objs]
+        ds2 = {"m": ds["m"], "K": [[S(v) for v in r] for r in rand_kernel(rng, kh, kw)],
+               "data": [[S(rng.randint(-9, 9)) for _ in range(W)] for _ in range(H)],
+               # same first noise value as ds (the only thing check_noise_map looks at), other values elsewhere
+               "noise": [[S(rng.choice(NOISE)) for _ in range(W)] for _ in range(H)]}
+        for k in ("ps", "origin"):
+            if k in ds: ds2[k] = ds[k]
+        first = next((y, x) for y in range(H) for x in range(W) if not ds["m"][y][x])
+        ds2["noise"][first[0]][first[1]] = ds["noise"][first[0]][first[1]]
+        steps = [SESS_STEPS[(3 * i + j) % len(SESS_STEPS)] for j in range(3)]
+        yield {"op": "sess", "ds": ds, "ds2": ds2, "objs": objs, "objs2": objs2, "steps": steps,
+               "d2": [rng.randint(-9, 9) for _ in range(n)], "d3": [[S(rng.randint(-9, 9)) for _ in range(W)] for _ in range(H)],
+               "eps": rng.choice(["1/1024", "1/2"]), "rseed": rng.randrange(10 ** 6)}
     for i in range(n_util):
         for op in ("dv_blurred", "curv_mapping", "add_diag", "mirror", "wt", "curv_preload", "off_preload", "dv_wtd",
                    "off_mapper_func", "dlfm", "mapped_unique", "mapped_matrix", "dense_w"):
@@ -194,14 +321,24 @@ def fl(M): return np.array([[float(Fraction(x)) for x in r] for r in M], dtype=f
 def flv(v): return np.array([float(Fraction(x)) for x in v], dtype=float)
 
 # ----------------------------------------------------------------------------- building the implementation objects
-def build_dataset(aa, ds):
-    m = np.array(ds["m"], dtype=bool)
-    mask = aa.Mask2D(mask=m, pixel_scales=1.0)
-    data = aa.Array2D.no_mask(values=np.array(ds["data"], dtype=float), pixel_scales=1.0)
-    noise = aa.Array2D.no_mask(values=fl(ds["noise"]), pixel_scales=1.0)
-    psf = aa.Kernel2D.no_mask(values=np.array(ds["K"], dtype=float), pixel_scales=1.0)
-    imaging = aa.Imaging(data=data, noise_map=noise, psf=psf, use_normalized_psf=False)
-    return imaging.apply_mask(mask=mask), mask
+def geom_of(ds):
+    ps = tuple(float(Fraction(x)) for x in ds.get("ps", ["1", "1"])); org = tuple(float(Fraction(x)) for x in ds.get("origin", ["0", "0"]))
+    return ps, org
+
+def build_imaging(aa, ds, data=None):
+    ps, org = geom_of(ds)
+    data = aa.Array2D.no_mask(values=fl(ds["data"] if data is None else data), pixel_scales=ps, origin=org)
+    noise = aa.Array2D.no_mask(values=fl(ds["noise"]), pixel_scales=ps, origin=org)
+    psf = aa.Kernel2D.no_mask(values=fl(ds["K"]), pixel_scales=ps)
+    return aa.Imaging(data=data, noise_map=noise, psf=psf, use_normalized_psf=False)
+
+def build_mask(aa, ds, m=None):
+    ps, org = geom_of(ds)
+    return aa.Mask2D(mask=np.array(ds["m"] if m is None else m, dtype=bool), pixel_scales=ps, origin=org)
+
+def build_dataset(aa, ds, data=None):
+    mask = build_mask(aa, ds)
+    return build_imaging(aa, ds, data).apply_mask(mask=mask), mask
 
 def build_obj(aa, mask, o, n):
     """returns (linear object, exact?)"""
@@ -233,13 +370,15 @@ def build_obj(aa, mask, o, n):
     return aa.MapperDelaunay(mapper_grids=mg, over_sampler=over, border_relocator=None, regularization=reg), False
 
 def cobj(aa, lo, o):
+    """the Coq view of a linear object, read from the LIVE object (what the inversion is handed), not from its descriptor"""
     if o["kind"] == "func":
-        ov = "None" if o["ov"] is None else f"(Some {cqm([[Fraction(x) for x in r] for r in o['ov']])})"
-        return f"(QFunc {cqm([[Fraction(x) for x in r] for r in o['M']])} {ov} {cnat(o['P'])} {cbool(o['reg'])})"
+        ovv = lo.operated_mapping_matrix_override
+        ov = "None" if ovv is None else f"(Some {cqm(fm(ovv))})"
+        return f"(QFunc {cqm(fm(lo.mapping_matrix))} {ov} {cnat(lo.params)} {cbool(lo.regularization is not None)})"
     um = lo.unique_mappings
     du = [[int(v) for v in r] for r in np.asarray(um.data_to_pix_unique)]
     return (f"(QMapper {czm(du)} {cqm(fm(um.data_weights))} {cnl([int(v) for v in um.pix_lengths])} "
-            f"{cqm(fm(lo.mapping_matrix))} {cnat(lo.params)} {cbool(o['reg'])})")
+            f"{cqm(fm(lo.mapping_matrix))} {cnat(lo.params)} {cbool(lo.regularization is not None)})")
 
 def enc_represents(lo):
     um = lo.unique_mappings; M = np.asarray(lo.mapping_matrix); E = np.zeros_like(M)
@@ -249,32 +388,93 @@ def enc_represents(lo):
     return bool(np.allclose(E, M, rtol=0, atol=1e-12))
 
 def close(a, b, rtol=1e-8):
+    """relative to the largest magnitude present (no absolute floor: tiny data must not hide a difference)"""
     a = np.asarray(a, dtype=float); b = np.asarray(b, dtype=float)
     if a.shape != b.shape: return False
-    scale = max(1.0, float(np.max(np.abs(b))) if b.size else 1.0)
+    scale = max(float(np.max(np.abs(b))) if b.size else 0.0, float(np.max(np.abs(a))) if a.size else 0.0)
     return bool(np.all(np.abs(a - b) <= rtol * scale))
 
-# ----------------------------------------------------------------------------- cases
-def run_case(inp):
-    aa = import_aa()
-    op = inp["op"]
-    if op == "inv": return run_inv(aa, inp)
-    return run_util(aa, inp)
+def settings_for(aa, use, eps_in, pos=False):
+    kw = dict(use_w_tilde=use, use_positive_only_solver=pos)
+    if eps_in is not None: kw["no_regularization_add_to_curvature_diag_value"] = float(Fraction(eps_in))
+    return aa.SettingsInversion(**kw)
 
+def digest(x):
+    if x is None: return None
+    if isinstance(x, (bool, int, float, str)): return repr(x)
+    try:
+        a = np.ascontiguousarray(np.asarray(x))
+        if a.dtype != object: return hashlib.sha1(a.tobytes() + str(a.shape).encode() + str(a.dtype).encode()).hexdigest()
+    except Exception: pass
+    return "id:%d" % id(x)
+
+def fingerprint(aa, dataset, los, settings, preloads=None, wts=()):
+    """everything the caller handed over (letter d): arrays of the dataset, of the w_tilde objects, of the linear objects, the fields
+    of the settings / preloads objects"""
+    fp = {"data": digest(dataset.data), "noise_map": digest(dataset.noise_map), "kernel": digest(dataset.convolver.kernel),
+          "mask": digest(dataset.data.mask)}
+    for i, w in enumerate(wts):
+        if w is not None:
+            fp.update({f"w{i}.curvature_preload": digest(w.curvature_preload), f"w{i}.indexes": digest(w.indexes),
+                       f"w{i}.lengths": digest(w.lengths), f"w{i}.noise_map_value": digest(float(w.noise_map_value))})
+    for i, lo in enumerate(los):
+        fp[f"obj{i}.mapping_matrix"] = digest(lo.mapping_matrix)
+        fp[f"obj{i}.override"] = digest(lo.operated_mapping_matrix_override)
+        if hasattr(lo, "unique_mappings") and not isinstance(lo, aa.m.MockLinearObjFuncList):
+            um = lo.unique_mappings
+            fp.update({f"obj{i}.data_to_pix_unique": digest(um.data_to_pix_unique), f"obj{i}.data_weights": digest(um.data_weights),
+                       f"obj{i}.pix_lengths": digest(um.pix_lengths)})
+    for k, v in sorted(vars(settings).items()): fp["settings." + k] = digest(v)
+    if preloads is not None:
+        for k, v in sorted(vars(preloads).items()):
+            if k != "w_tilde": fp["preloads." + k] = digest(v)
+    return fp
+
+def fp_diff(a, b): return sorted(k for k in a if a[k] != b.get(k))
+
+QNAMES = {"B": "operated_mapping_matrix", "D": "data_vector", "F": "curvature_matrix", "FR": "curvature_reg_matrix"}
+def rand_reads(rrng):
+    """operated_mapping_matrix, data_vector, curvature_matrix each at least once, curvature_reg_matrix / reconstruction in between,
+    repeats; often curvature_matrix again AFTER curvature_reg_matrix"""
+    qs = ["B", "D", "F"] + [rrng.choice(["B", "D", "F", "F", "FR", "FR", "Rec"]) for _ in range(rrng.randint(1, 4))]
+    rrng.shuffle(qs)
+    if rrng.random() < 0.6: qs += [rrng.choice(["FR", "Rec"]), "F"] + (["FR"] if rrng.random() < 0.5 else []) + (["D"] if rrng.random() < 0.3 else [])
+    return qs
+
+def do_reads(inv, qs):
+    outs = []
+    for q in qs:
+        if q == "Rec":
+            try: inv.reconstruction
+            except Exception: pass         # singular / degenerate systems are C05's: data_vector and curvature_reg_matrix are read before
+            outs.append(None)
+        else: outs.append(np.array(getattr(inv, QNAMES[q])))     # a COPY taken at the time of the read
+    return outs
+
+def crouts(qs, outs):
+    ts = []
+    for q, o in zip(qs, outs):
+        if q == "Rec": ts.append("(@OutNone QOps)")
+        elif q == "D": ts.append(f"(@OutV QOps {cqv(fv(o))})")
+        else: ts.append(f"(@OutM QOps {cqm(fm(o))})")
+    return clist(ts)
+def crqs(qs): return clist([{"B": "RB", "D": "RD", "F": "RF", "FR": "RFR", "Rec": "RRec"}[q] for q in qs])
+
+EXACT_EXTS = (None, "zero_data", "flat", "zero", "neg")
 def run_inv(aa, inp):
-    ds = inp["ds"]; m = ds["m"]; K = ds["K"]
+    ds = inp["ds"]; m = ds["m"]; K = [[Fraction(v) for v in r] for r in ds["K"]]
     dataset, mask = build_dataset(aa, ds)
     n = int(mask.pixels_in_mask)
     built = [build_obj(aa, mask, o, n) for o in inp["objs"]]
     los = [b[0] for b in built]
-    eps_in = inp["eps"]
-    exact = all(b[1] for b in built) and (eps_in is not None or all(o["reg"] for o in inp["objs"]))
+    eps_in = inp["eps"]; ext = inp.get("ext")
+    exact = all(b[1] for b in built) and (eps_in is not None or all(o["reg"] for o in inp["objs"])) and ext in EXACT_EXTS
     tol = Fraction(0) if exact else Fraction(1, 10 ** 9)
     d = fv(dataset.data); s = fv(dataset.noise_map)
     cobjs = clist([cobj(aa, lo, o) for lo, o in zip(los, inp["objs"])])
     kinds = "+".join(o["kind"] for o in inp["objs"])
     tally("objs:" + kinds); tally(f"psf:{len(K)}x{len(K[0])}"); tally("signed_psf" if any(v < 0 for r in K for v in r) else "nonneg_psf")
-    tally("exact" if exact else "tolerance")
+    tally("exact" if exact else "tolerance"); tally("ext:" + str(ext)); tally("geom:" + ("unit" if "ps" not in ds else "x".join(ds["ps"])))
     has_mapper = any(o["kind"] != "func" for o in inp["objs"])
     rrng = random.Random(inp["rseed"])
     terms, outs, detail = [], {}, {}
@@ -282,24 +482,34 @@ def run_inv(aa, inp):
     for lo in los:
         if hasattr(lo, "unique_mappings") and not isinstance(lo, aa.m.MockLinearObjFuncList):
             if not enc_represents(lo): py_ok = False; detail["encoding"] = "unique mappings do not represent mapping_matrix"
+    hdr = f"{cmask(m)} {cqm(K)}"
     res = {}
+    qs = rand_reads(rrng)
     for use in (False, True):
-        kw = dict(use_w_tilde=use, use_positive_only_solver=False)
-        if eps_in is not None: kw["no_regularization_add_to_curvature_diag_value"] = float(Fraction(eps_in))
-        settings = aa.SettingsInversion(**kw)
-        inv = aa.Inversion(dataset=dataset, linear_obj_list=los, settings=settings)
+        settings = settings_for(aa, use, eps_in)
+        fp0 = fingerprint(aa, dataset, los, settings, wts=[dataset.w_tilde])
+        # the regularization matrix, from a twin instance (the instance under observation is only touched by the reads below)
+        H = np.array(aa.Inversion(dataset=dataset, linear_obj_list=los, settings=settings).regularization_matrix)
+        # the observed instance sometimes runs with the library's default positive-only solver (its reconstruction reads
+        # curvature_reg_matrix / data_vector along another path; the values of B, D, F do not depend on it)
+        pos = rrng.random() < 0.3
+        inv = aa.Inversion(dataset=dataset, linear_obj_list=los, settings=settings_for(aa, use, eps_in, pos) if pos else settings)
+        if pos: tally("positive_only_solver")
         is_wt = isinstance(inv, aa.InversionImagingWTilde)
+        tally("class_as_modelled" if is_wt == (use and has_mapper) else "class_differs_from_model")
         eps = frac(settings.no_regularization_add_to_curvature_diag_value)
-        B = np.array(inv.operated_mapping_matrix); D = np.array(inv.data_vector); F = np.array(inv.curvature_matrix)
+        # ONE instance, its cached properties read in a random order with repeats (curvature_matrix again after
+        # curvature_reg_matrix / reconstruction): every read is judged by the cell model and by the specification
+        o_ = do_reads(inv, qs)
+        first = {q: v for q, v in reversed(list(zip(qs, o_)))}
+        B, D, F = first["B"], first["D"], first["F"]
         P = B.shape[1]
-        terms.append(f"(KInv {cmask(m)} {cqm(K)} {cqv(d)} {cqv(s)} {cobjs} {cbool(is_wt)} {cq(eps)} {cq(tol)} "
-                     f"{cqm(fm(B))} {cqv(fv(D))} {cqm(fm(F))})")
-        # mapped_reconstructed_data for an injected integer reconstruction (cached_property slot)
+        terms.append(f"(KSeq {hdr} {cqv(d)} {cqv(s)} {cobjs} {cbool(is_wt)} {cq(eps)} {cq(tol)} {cqm(fm(H))} {crqs(qs)} {crouts(qs, o_)})")
+        # mapped_reconstructed_data of the same instance for an injected integer reconstruction (cached_property slot)
         r = [Fraction(rrng.randint(-4, 4)) for _ in range(P)] if use is False else res[False]["r"]
-        inv2 = aa.Inversion(dataset=dataset, linear_obj_list=los, settings=settings)
-        inv2.__dict__["reconstruction"] = flv(r)
-        mapped = np.array(inv2.mapped_reconstructed_data)
-        terms.append(f"(KMapped {cmask(m)} {cqm(K)} {cnat(n)} {cobjs} {cbool(is_wt)} {cq(tol)} {cqv(r)} {cqv(fv(mapped))})")
+        inv.__dict__["reconstruction"] = flv(r); inv.__dict__.pop("mapped_reconstructed_data", None)
+        mapped = np.array(inv.mapped_reconstructed_data)
+        terms.append(f"(KMapped {hdr} {cnat(n)} {cobjs} {cbool(is_wt)} {cq(tol)} {cqv(r)} {cqv(fv(mapped))})")
         # the solved reconstruction (C05's), only for the comparison of the two formalisms
         rec = None
         try:
@@ -310,40 +520,33 @@ def run_inv(aa, inp):
                 rec = np.array(inv3.reconstruction); recmapped = np.array(inv3.mapped_reconstructed_data)
         except Exception as e:   # singular systems, degenerate solutions: C05
             rec = None
-        # read-order independence (cached quantities): on a fresh instance read curvature_reg_matrix / reconstruction /
-        # mapped_reconstructed_data / ... FIRST, then operated_mapping_matrix, data_vector, curvature_matrix.  If any of them is
-        # not bit-identical to the fresh-order read, the late values go through the same Coq comparison (model + spec) as an
-        # extra KInv case; identical values have already been judged above.
-        inv4 = aa.Inversion(dataset=dataset, linear_obj_list=los, settings=settings)
-        for name in ("curvature_reg_matrix", "reconstruction", "mapped_reconstructed_data", "curvature_reg_matrix_reduced",
-                     "regularization_term", "reconstruction_dict", "mapped_reconstructed_image"):
-            try: getattr(inv4, name)
-            except Exception:      # singular / degenerate systems are C05's; keep going with an injected reconstruction
-                if name == "reconstruction": inv4.__dict__["reconstruction"] = flv(r)
-        B4 = np.array(inv4.operated_mapping_matrix); D4 = np.array(inv4.data_vector); F4 = np.array(inv4.curvature_matrix)
-        if B4.shape == B.shape and D4.shape == D.shape and F4.shape == F.shape and \
-           np.array_equal(B4, B) and np.array_equal(D4, D) and np.array_equal(F4, F):
-            tally("late_read_identical")
-        else:
-            tally("late_read_differs")
-            terms.append(f"(KInv {cmask(m)} {cqm(K)} {cqv(d)} {cqv(s)} {cobjs} {cbool(is_wt)} {cq(eps)} {cq(tol)} "
-                         f"{cqm(fm(B4))} {cqv(fv(D4))} {cqm(fm(F4))})")
-            outs[str(use) + "_read_after_reconstruction"] = {"D": D4.tolist(), "F": F4.tolist()}
-            detail["read_order"] = "curvature_matrix / data_vector read after reconstruction differ from the fresh read"
+        ch = fp_diff(fp0, fingerprint(aa, dataset, los, settings, wts=[dataset.w_tilde]))
+        if ch: py_ok = False; detail["inputs_modified"] = ch
         res[use] = dict(is_wt=is_wt, B=B, D=D, F=F, mapped=mapped, r=r, rec=rec, recmapped=None if rec is None else recmapped)
-        outs[str(use)] = {"class": type(inv).__name__, "D": D.tolist(), "F": F.tolist()}
+        outs[str(use)] = {"class": type(inv).__name__, "reads": qs, "D": D.tolist(), "F": F.tolist()}
     a, b = res[False], res[True]
     tally("class:" + ("wtilde" if b["is_wt"] else "mapping") + "(use_w_tilde=True)")
     if has_mapper and not b["is_wt"]:
         # whatever the factory chose, the w-tilde class itself is compared with the mapping formalism
-        st = aa.SettingsInversion(use_w_tilde=True, use_positive_only_solver=False,
-                                  **({} if eps_in is None else {"no_regularization_add_to_curvature_diag_value": float(Fraction(eps_in))}))
+        st = settings_for(aa, True, eps_in)
         iw = aa.InversionImagingWTilde(dataset=dataset, w_tilde=dataset.w_tilde, linear_obj_list=los, settings=st)
         b = dict(b, D=np.array(iw.data_vector), F=np.array(iw.curvature_matrix))
-    for key in ("B", "D", "F", "mapped"):
-        if not close(a[key], b[key]): py_ok = False; detail["formalisms_differ"] = key
-    for r_ in (a, b):
-        if not close(r_["F"], r_["F"].T, 1e-12): py_ok = False; detail["asymmetric"] = True
+        terms.append(f"(KInv {hdr} {cqv(d)} {cqv(s)} {cobjs} true {cq(frac(st.no_regularization_add_to_curvature_diag_value))} {cq(tol)} "
+                     f"{cqm(fm(iw.operated_mapping_matrix))} {cqv(fv(b['D']))} {cqm(fm(b['F']))})")
+    if inp.get("k", 0) % 3 == 0:
+        # the library's defaults: no settings / preloads argument, i.e. the SHARED default SettingsInversion() and Preloads() objects of
+        # the factory's signature (anything remembered in them is carried from one dataset of this process to the next)
+        invd = aa.Inversion(dataset=dataset, linear_obj_list=los)
+        epsd = frac(invd.settings.no_regularization_add_to_curvature_diag_value)
+        told = tol if all(o["reg"] for o in inp["objs"]) else Fraction(1, 10 ** 9)
+        terms.append(f"(KInv {hdr} {cqv(d)} {cqv(s)} {cobjs} {cbool(isinstance(invd, aa.InversionImagingWTilde))} {cq(epsd)} {cq(told)} "
+                     f"{cqm(fm(invd.operated_mapping_matrix))} {cqv(fv(invd.data_vector))} {cqm(fm(invd.curvature_matrix))})")
+        tally("default_settings_and_preloads")
+    if ext in EXACT_EXTS:      # (with scaled columns the Coq comparison, which is relative to each column's scale, is the judge)
+        for key in ("B", "D", "F", "mapped"):
+            if not close(a[key], b[key]): py_ok = False; detail["formalisms_differ"] = key
+        for r_ in (a, b):
+            if not close(r_["F"], r_["F"].T, 1e-12): py_ok = False; detail["asymmetric"] = True
     if a["rec"] is not None and b["rec"] is not None:
         tally("reconstruction_compared")
         if not close(a["rec"], b["rec"], 1e-6) or not close(a["recmapped"], b["recmapped"], 1e-6):
@@ -351,6 +554,120 @@ def run_inv(aa, inp):
     else: tally("reconstruction_skipped_ill_conditioned")
     nontrivial = n >= 2 and sum(1 for r in K for v in r if v != 0) > 1
     return dict(coq=terms[0], extra_coq=terms[1:], out=outs, py_ok=py_ok, nontrivial=nontrivial, kind="inv:" + kinds, detail=detail)
+
+def run_sess(aa, inp):
+    """a history in one process on SHARED objects (letters a-d): one Imaging, one settings object per formalism, one list of linear
+    objects, used for several inversions between which the caller swaps the objects / the data / the w_tilde carrier, edits arrays in
+    place or derives datasets; every inversion is judged by the model + specification on the values of the dataset ACTUALLY passed in
+    (read from the objects at that moment); the caller's arrays and settings are fingerprinted around every inversion."""
+    ds = inp["ds"]
+    A, mask = build_dataset(aa, ds)
+    n = int(mask.pixels_in_mask)
+    objs = inp["objs"]
+    los = [build_obj(aa, mask, o, n)[0] for o in objs]
+    eps_in = inp["eps"]; rrng = random.Random(inp["rseed"])
+    st = {use: settings_for(aa, use, eps_in) for use in (False, True)}
+    terms, outs, detail = [], {}, {}
+    py = {"ok": True}
+    def observe(label, dataset, los_, descs, preloads=None, sw=None, wts=(), uses=(False, True)):
+        mq = [[bool(b) for b in r] for r in np.array(dataset.data.mask)]
+        Kq = fm(np.array(dataset.convolver.kernel.native))
+        d = fv(dataset.data); s = fv(dataset.noise_map); sw_ = s if sw is None else sw
+        for use in uses:
+            cobjs = clist([cobj(aa, lo, o) for lo, o in zip(los_, descs)])
+            fp0 = fingerprint(aa, dataset, los_, st[use], preloads, wts)
+            kw = {} if preloads is None else {"preloads": preloads}
+            try:
+                inv = aa.Inversion(dataset=dataset, linear_obj_list=los_, settings=st[use], **kw)
+                is_wt = isinstance(inv, aa.InversionImagingWTilde)
+                B, D, F = np.array(inv.operated_mapping_matrix), np.array(inv.data_vector), np.array(inv.curvature_matrix)
+                out = f"(Some ({cqm(fm(B))}, {cqv(fv(D))}, {cqm(fm(F))}))"
+                outs[f"{label}:{use}"] = {"class": type(inv).__name__, "D": D.tolist(), "F": F.tolist()}
+            except aa.exc.InversionException as e:
+                is_wt = True; out = "None"; outs[f"{label}:{use}"] = "InversionException"
+            eps = frac(st[use].no_regularization_add_to_curvature_diag_value)
+            terms.append(f"(KInvW {cmask(mq)} {cqm(Kq)} {cqv(d)} {cqv(s)} {cqv(sw_)} {cobjs} {cbool(is_wt)} {cq(eps)} {cq(0)} {out})")
+            ch = fp_diff(fp0, fingerprint(aa, dataset, los_, st[use], preloads, wts))
+            if ch: py["ok"] = False; detail["inputs_modified:" + label] = ch
+            tally("sess:" + label)
+    wA = A.w_tilde
+    observe("base", A, los, objs, wts=[wA])
+    for step in inp["steps"]:
+        if step == "objs2":
+            # the same dataset and settings with other objects of the same kinds and shapes, then the first list again
+            los2 = [build_obj(aa, mask, o, n)[0] for o in inp["objs2"]]
+            observe("objs2", A, los2, inp["objs2"], wts=[wA])
+            observe("objs_again", A, los, objs, wts=[wA], uses=(True,))
+        elif step == "iface":
+            # model-subtracted data handed over through a DatasetInterface that carries the Imaging's convolver and w_tilde
+            sub = aa.Array2D(values=np.array(inp["d2"], dtype=float), mask=mask)
+            DI = aa.DatasetInterface(data=A.data - sub, noise_map=A.noise_map, convolver=A.convolver, w_tilde=A.w_tilde, grids=A.grids)
+            observe("iface", DI, los, objs, wts=[wA])
+            observe("after_iface", A, los, objs, wts=[wA], uses=(True,))
+        elif step == "preload":
+            # Preloads(w_tilde=...) made by an Imaging with the same mask / noise map / psf and OTHER data
+            A3, _ = build_dataset(aa, ds, data=inp["d3"])
+            pl = aa.Preloads(w_tilde=A3.w_tilde, use_w_tilde=True)
+            observe("preload", A, los, objs, preloads=pl, wts=[wA, A3.w_tilde])
+            observe("preload_off", A, los, objs, preloads=aa.Preloads(use_w_tilde=False), wts=[wA], uses=(True,))
+            # the SAME Preloads object again after the data were edited in place (nothing remembered in it may be used for the data)
+            j = rrng.randrange(n); A.data[j] = float(A.data[j]) + 6.0
+            observe("preload_again", A, los, objs, preloads=pl, wts=[wA, A3.w_tilde], uses=(True,))
+        elif step == "edit_data":
+            # the caller edits the data in place between two inversions on the same dataset object
+            j = rrng.randrange(n); A.data[j] = float(A.data[j]) + rrng.choice([-7.0, 5.0, 11.0])
+            observe("edit_data", A, los, objs, wts=[wA])
+        elif step == "edit_func":
+            # the caller edits a basis function (plain attribute of the function list) in place between two inversions
+            fs = [lo for lo, o in zip(los, objs) if o["kind"] == "func"]
+            if fs:
+                lo = rrng.choice(fs); tgt = lo.mapping_matrix if lo.operated_mapping_matrix_override is None else lo.operated_mapping_matrix_override
+                tgt[rrng.randrange(tgt.shape[0]), rrng.randrange(tgt.shape[1])] += 3.0
+            else:
+                j = rrng.randrange(n); A.data[j] = float(A.data[j]) - 4.0
+            observe("edit_func", A, los, objs, wts=[wA])
+        elif step == "ds2":
+            # the same linear objects and settings with another dataset on the same mask (other psf, noise map, data)
+            B2, _ = build_dataset(aa, inp["ds2"])
+            observe("ds2", B2, los, objs, wts=[B2.w_tilde, wA])
+            observe("after_ds2", A, los, objs, wts=[wA], uses=(True,))
+        elif step == "iface_noise0":
+            # a scaled noise map (derived by arithmetic) with the Imaging's w_tilde: check_noise_map must refuse the w-tilde class;
+            # the mapping formalism gives the normal equations of the scaled noise map
+            DI = aa.DatasetInterface(data=A.data, noise_map=A.noise_map * 2.0, convolver=A.convolver, w_tilde=A.w_tilde, grids=A.grids)
+            observe("iface_noise0", DI, los, objs, sw=fv(A.noise_map), wts=[wA])
+        elif step == "remask":
+            # a dataset DERIVED by a second apply_mask (one pixel fewer) after convolver / w_tilde of the first were used
+            un = [(y, x) for y in range(len(ds["m"])) for x in range(len(ds["m"][0])) if not ds["m"][y][x]]
+            j = rrng.randrange(n)
+            m2 = [list(r) for r in ds["m"]]; m2[un[j][0]][un[j][1]] = True
+            mask2 = build_mask(aa, ds, m2)
+            A2 = A.apply_mask(mask=mask2)
+            descs = []
+            for o in objs:
+                o2 = dict(o)
+                if o["kind"] == "func":
+                    o2["M"] = [r for k, r in enumerate(o["M"]) if k != j]
+                    o2["ov"] = None if o["ov"] is None else [r for k, r in enumerate(o["ov"]) if k != j]
+                descs.append(o2)
+            los_r = [build_obj(aa, mask2, o, n - 1)[0] for o in descs]
+            observe("remask", A2, los_r, descs, wts=[A2.w_tilde, wA])
+        elif step == "oversampling":
+            A4 = A.apply_over_sampling(over_sampling=aa.OverSamplingDataset(uniform=aa.OverSamplingUniform(sub_size=2),
+                                                                           pixelization=aa.OverSamplingUniform(sub_size=2)))
+            observe("oversampling", A4, los, objs, wts=[A4.w_tilde, wA])
+        else: raise ValueError(step)
+    kinds = "+".join(o["kind"] for o in objs)
+    return dict(coq=terms[0], extra_coq=terms[1:], out=outs, py_ok=py["ok"], nontrivial=True,
+                kind="sess:" + kinds + ":" + ",".join(inp["steps"]), detail=detail)
+
+# ----------------------------------------------------------------------------- cases
+def run_case(inp):
+    aa = import_aa()
+    op = inp["op"]
+    if op == "inv": return run_inv(aa, inp)
+    if op == "sess": return run_sess(aa, inp)
+    return run_util(aa, inp)
 
 def small_dataset(rng):
     while True:
